@@ -84,4 +84,14 @@ PROPS = {
         assumptions=ROUTING_ASSUMPTIONS + ["after a source-stream restart the source resumes from the last acknowledgement it received"],
         timeout={"quick": 1200, "thorough": 7200},
     ),
+    "C03": dict(
+        engine="TestC03",
+        lean_modules=["S2S.Props.C03"],
+        required_theorems=["C03_acks_monotone_bounded", "C03_eventually_complete"],
+        rule=ROUTING_RULE + " Focus C03: slow (gated) targets flooded with >100 watermarks so that the 100-slot queue fills and broadcasts are dropped, "
+             "targets that never get a task, late targets; every fault-free trace ends with a drain phase (gates opened, all targets opened, two fair "
+             "rounds: final watermark re-sent, every target acks everything it received) after which the last upstream ack must equal the final high watermark.",
+        assumptions=ROUTING_ASSUMPTIONS + ["liveness is the 'two fair rounds' reading: the source re-sends its final watermark and every target acknowledges what it received, twice; real-time tickers are not modelled"],
+        timeout={"quick": 1200, "thorough": 7200},
+    ),
 }
